@@ -268,6 +268,15 @@ def r4_groupby_sorted(ctx):
 def _refines(skey, gkey):
     """sort key is a tuple whose first component is the grouping key's body, or both are x.get(<same key>[, sentinel])"""
     if isinstance(skey, ast.Lambda) and isinstance(gkey, ast.Lambda):
+        import re as _re
+
+        def norm(lam):
+            t = src(lam.body).replace(lam.args.args[0].arg + ".", "_.")
+            t = _re.sub(r"\.get\(([^,()]+)(, None)?\)", r"[\1]", t)
+            return t
+        na, nb = norm(skey), norm(gkey)
+        if na == nb or nb.startswith(na) and nb[len(na):].startswith("["):
+            return True  # sorting by a list value refines grouping by its first element
         a, b = skey.body, gkey.body
         if isinstance(a, ast.Call) and isinstance(b, ast.Call) and call_tail(a) == "get" and call_tail(b) == "get" \
                 and a.args and b.args and src(a.args[0]) == src(b.args[0]):
